@@ -1,6 +1,7 @@
 \* C14, quick tier, theorems (no output; several workers).  Symbolic machine integers: MAX = 2*H+1 = [2,1]  (Go: H = 2^62-1, MAX = math.MaxInt).
 \* All operations with <= 3 selection nodes x {no custom cost, one slot, two slots, all slots uniform}.
-\* Measured: 253 trees, 27,097 (tree, costs) inputs, 54,447 distinct states, depth 3; 2 workers ~15 s.
+\* Measured: 253 trees, 27,097 (tree, costs) inputs, 54,447 distinct states, depth 3; 2 workers ~15 s (round 4: + TOccIndep).
+\* Operations that select ONE interface field several times: MC_Complexity_iface.cfg.
 CONSTANTS
   MaxH = 2
   MaxD = 1
